@@ -22,7 +22,7 @@ extern "C" void __sanitizer_set_death_callback(void (*callback)(void));
 // non-inline and used: an `extern "C" inline` definition would never be emitted
 extern "C" __attribute__((used)) auto __asan_default_options() -> char const*
 {
-    return "exitcode=77:detect_leaks=0:abort_on_error=0:detect_stack_use_after_return=0:allocator_may_return_null=1:"
+    return "exitcode=77:detect_leaks=0:alloc_dealloc_mismatch=0:abort_on_error=0:detect_stack_use_after_return=0:allocator_may_return_null=1:"
            "handle_abort=1:print_summary=1";
 }
 extern "C" __attribute__((used)) auto __ubsan_default_options() -> char const*
@@ -128,6 +128,14 @@ auto operator new(size_t n) -> void*
 }
 
 auto operator new[](size_t n) -> void* { return operator new(n); }
+
+auto operator new(size_t n, std::nothrow_t const& /*tag*/) noexcept -> void* { return operator new(n); }
+
+auto operator new[](size_t n, std::nothrow_t const& /*tag*/) noexcept -> void* { return operator new(n); }
+
+void operator delete(void* p, std::nothrow_t const& /*tag*/) noexcept { std::free(p); }
+
+void operator delete[](void* p, std::nothrow_t const& /*tag*/) noexcept { std::free(p); }
 
 void operator delete(void* p) noexcept { std::free(p); }
 
